@@ -24,6 +24,15 @@ ASSUMPTIONS = [
     "numpy argsort on equal keys may order ties arbitrarily; equal snaps/offsets give equal results so this is unobservable",
 ]
 TRUSTED = []
+MANIFEST = dict(
+    text="Machine-checked theorems (Coq 8.16.1) about an executable Gallina model of Snapper/Snap/TimingMap over exact rationals: "
+         "nearest-allowed-fraction, within 1/192, idempotence for every input and every table satisfying the structural obligations "
+         "(re-checked on the table regenerated from the live Snapper each run); the model is tied to the code by in-Coq correspondence "
+         "(implementation executed on fractions.Fraction, exact equality) plus the integration oracle evaluated on implementation outputs.",
+    note="Trusted: Coq kernel+VM, harness generator/serialiser, gen_tables translator; binary64 rounding measured (rounded stream, tol 1e-6 ms) not proved; "
+         "theorems are 'Closed under the global context'.",
+    technique="Coq proof over executable model + vm_compute correspondence against the implementation",
+    design="4/C10")
 
 DENS = [1, 2, 3, 4, 5, 6, 7, 8, 9, 12, 16, 24, 32, 48, 64, 96, 11, 13, 27, 50, 95]
 
